@@ -342,6 +342,88 @@ class Alg:
     def eq(self, a, b):
         return self.is_zero(self.sub(a, b))
 
+    # ------------------------------------------------- numeric refutation of an identity
+    def numeval(self, a, rnd):
+        """Value of a normal form at a random point (atoms -> floats; structured atoms are
+        evaluated from their definitions).  Used only to REFUTE identities cheaply: a sum that
+        is far from zero relative to the size of its terms is not identically zero.  Returns
+        (value, sum of |terms|); raises ValueError outside the real domain."""
+        import math as _m
+        iv = getattr(self, 'inv_of', {})
+        fa = getattr(self, 'func_arg', {})
+        memo = {}
+
+        def val_poly(p):
+            tot, mag = 0.0, 0.0
+            for m, c in p.t.items():
+                t = float(c)
+                for at, pw in m:
+                    t *= atom(at) ** pw
+                tot += t
+                mag += abs(t)
+            return tot, mag
+
+        def atom(at):
+            if at in memo:
+                return memo[at]
+            if at == self.R2D:
+                v = 1.0 / atom(self.D2R)
+            elif at in self.sin_arg:
+                v = _m.sin(val_poly(self.sin_arg[at].n)[0])
+            elif at in self.cos_arg:
+                v = _m.cos(val_poly(self.cos_arg[at].n)[0])
+            elif at in self.sqrt_of:
+                r = val_poly(self.sqrt_of[at])[0]
+                if r < 0:
+                    raise ValueError('negative radicand')
+                v = _m.sqrt(r)
+            elif at in iv:
+                r = val_poly(iv[at])[0]
+                if abs(r) < 1e-9:
+                    raise ValueError('pole')
+                v = 1.0 / r
+            elif at.startswith('inv(') and at in self.inverse:
+                r = atom(self.inverse[at])
+                if abs(r) < 1e-9:
+                    raise ValueError('pole')
+                v = 1.0 / r
+            elif at in fa:
+                fn_, args_ = fa[at]
+                xs = [val_poly(x.n)[0] for x in args_]
+                try:
+                    v = {'arcsin': _m.asin, 'arccos': _m.acos, 'arctan': _m.atan,
+                         'arctan2': _m.atan2, 'exp': _m.exp, 'log': _m.log}[fn_](*xs)
+                except KeyError:
+                    v = rnd(at)
+            else:
+                v = rnd(at)
+            memo[at] = v
+            return v
+        return val_poly(a.n)
+
+    def refuted(self, a, b=None, trials=3):
+        """True only if a (or a - b) is certainly not identically zero."""
+        import random as _r
+        if getattr(self, 'trunc', None) is not None:
+            return False
+        d = a if b is None else self.sub(a, b)
+        if d.n.is_zero():
+            return False
+        for k in range(trials * 4):
+            g = _r.Random(1234 + k)
+            table = {}
+
+            def rnd(at, g=g, table=table):
+                if at not in table:
+                    table[at] = g.uniform(0.15, 0.55)
+                return table[at]
+            try:
+                v, mag = self.numeval(d, rnd)
+            except (ValueError, OverflowError, ZeroDivisionError):
+                continue
+            return mag > 0 and abs(v) > 1e-7 * mag
+        return False
+
     def is_const(self, a):
         return a.n.is_const()
 
